@@ -44,6 +44,8 @@ def gen_cfg(rng, tier: str, big: bool = False) -> dict:
         # version 1 stores a 32-bit size; the four bytes after it are not part of the header ("Unused" in the SDK layout,
         # masked off by QEMU) and hold whatever the producer left there
         "v1_unused": rng.choice([0, 0, 0, 1, 0xDEADBEEF]) if ver == 1 else 0,
+        # version 1 addresses clusters by sector: the data area may start on any sector (classic images: right behind the table)
+        "v1_skew": rng.choice([0, 0, 1, 1, 5]) if ver == 1 and cl > 1 else 0,
     }
 
 
@@ -60,8 +62,9 @@ def render(cfg: dict, layer: Layer, view: View, parent: dict | None = None, name
     slots, nslots = assign_slots(need, cfg["alloc"], cfg["alloc_seed"])
     meta_sectors = (64 + 4 * ncl + 511) // 512
     first_cluster = (meta_sectors + cl - 1) // cl + cfg["data_lead"]  # data area start, in clusters
-    data_start = first_cluster * cl  # sectors
     ver = cfg["ver"]
+    skew = cfg.get("v1_skew", 0) % cl if ver == 1 else 0
+    data_start = first_cluster * cl + skew  # sectors
     if ver == 1:
         assert layer.n < (1 << 32)
         size_field = struct.pack("<II", layer.n, cfg.get("v1_unused", 0))
@@ -80,7 +83,7 @@ def render(cfg: dict, layer: Layer, view: View, parent: dict | None = None, name
     bat = [0] * ncl
     for u in need:
         c = first_cluster + slots[u]
-        bat[u] = c * cl if ver == 1 else c
+        bat[u] = c * cl + skew if ver == 1 else c
     f.write(64, struct.pack("<%dI" % ncl, *bat))
     img.field("hds.bat", name, 64, 4 * ncl, "<", "table")
     for i in range(min(ncl, 4)):
@@ -88,15 +91,15 @@ def render(cfg: dict, layer: Layer, view: View, parent: dict | None = None, name
     used = set()
     for u in need:
         a, b = layer.urange(u)
-        pos = (first_cluster + slots[u]) * cl * 512
+        pos = ((first_cluster + slots[u]) * cl + skew) * 512
         put_view(f, pos, view, a, b)
         if b - a < cl:
             put_poison(f, pos + (b - a) * 512, (cl - (b - a)) * 512, 0xB10C)
         used.add(slots[u])
     for s in range(nslots):
         if s not in used:
-            put_poison(f, (first_cluster + s) * cl * 512, cl * 512, 0x57A1)
-    f.set_length(max(f.length, (first_cluster + nslots) * cl * 512, 64 + 4 * ncl))
+            put_poison(f, ((first_cluster + s) * cl + skew) * 512, cl * 512, 0x57A1)
+    f.set_length(max(f.length, ((first_cluster + nslots) * cl + skew) * 512, 64 + 4 * ncl))
     img.files[name] = f
     img.main = name
     img.meta = {"size": layer.n * 512, "cluster_size": cl * 512, "data_offset": data_start, "in_use": cfg["in_use"]}
